@@ -17,6 +17,11 @@ func init() {
 			a.c18Resend()
 			a.c03NoOtherEmitters("W.emitters")
 			a.policiesImmutable("W.policies")
+			a.transitionsUnconditional("W.msg-state")
+			a.tlvParseLoopComplete("S.tlv-loop")
+			a.tlvLoopComplete("S.tlv-loop")
+			a.resendKeepsCopy("S.plaintext-retention")
+			a.akeContextDropped("S.ake-dropped")
 			a.cipherBuffers("K.cipher-buffers")
 		})
 }
